@@ -149,6 +149,18 @@ def debug_flip(every: int = 3) -> bool:
     return _debug_counter[0] % every == 0
 
 
+_addr_counter = [0]
+ADDRESS_FORMS = (["10.0.0.1"], ["verif-device.local"], ["verif-device"], ["10.0.0.1", "verif-device.local"],
+                 ["verif-device.example.org"], ["fe80::1"], ["verif-device.local", "other"])
+
+
+def address_form() -> list[str]:
+    """the configured address list, rotated over its forms (IP literal, .local name, bare name, DNS name, several): the
+    benches answer the resolver themselves, so the form only matters where the client code looks at it"""
+    _addr_counter[0] += 1
+    return list(ADDRESS_FORMS[_addr_counter[0] % len(ADDRESS_FORMS)])
+
+
 def run_driver(lines: list[str], timeout=1200) -> list[str] | None:
     """Pipe operation lines to the compiled Lean driver; one output line per input line.
     None = there is no driver (it did not build: a broken obligation, handled by the caller).  A driver that exists but
